@@ -17,6 +17,7 @@ const (
 	rC15Rec      = "ORDABS.recording-proofs-check"
 	rC15ID       = "ORDABS.proof-id-is-content"
 	rC15Engine   = "ORDABS.recorder-callbacks"
+	rC15Do       = "ORDABS.aggregate-inputs"
 )
 
 // ---- a reference evaluator for host-level programs (integers as constants) ----
@@ -255,6 +256,25 @@ func c15Programs() []hProgram {
 				cl("one", h(X), at("n", X), hPrem{kind: "eq", l: X, r: hc(1)}),
 			},
 		}},
+		{"nested-cuts", []string{"e(1)"}, [][]hClause{{
+			cl("a", h(X), at("b", X)),
+			cl("a", h(X), at("e", X)),
+			cl("b", h(X), at("a", X)),
+			cl("b", h(X), at("d", X)),
+			cl("d", h(X), at("b", X)),
+			cl("g", h(X), at("a", X), at("b", X)),
+		}}},
+		{"self-recursive-second-rule", []string{"e(1)"}, [][]hClause{{
+			cl("a", h(X), at("e", X)),
+			cl("a", h(X), at("b", X)),
+			cl("b", h(X), at("a", X)),
+			cl("b", h(X), at("b", X), at("e", X)),
+			cl("g", h(X), at("a", X), at("b", X)),
+		}}},
+		{"four-premises-with-fan-out", []string{"p1(1)", "p2(1)", "p3(1)", "p4(1,10)", "p4(1,20)", "p4(1,30)"}, [][]hClause{{
+			cl("r", h(X), at("p1", X), at("p2", X), at("p3", X), at("p4", X, Y)),
+			cl("s", h(X, Y), at("p1", X), at("p2", X), at("p3", X), at("p4", X, Y), at("p1", X)),
+		}}},
 		{"edb-and-idb-mixed-goal", []string{"f(1)", "g(1)", "g(2)"}, [][]hClause{{
 			cl("r", h(X), at("f", X), at("g", X)),
 			cl("r", h(X), at("g", X), at("r", X)),
@@ -700,6 +720,10 @@ func checkC15(c *core.Ctx) {
 	}
 	c.Check(idBad == "", rC15ID, "provenance.derivedProofID/edbProofID/absenceProofID", r.explain.Decl.Pos(), fmt.Sprintf("%d distinct proofs, identifiers and contents in bijection", len(pool)), idBad)
 	c15Engine(c)
+	c.Rule(rC15Do, "the do-transform pass of (*engine).eval hands the transform (and through it the recorder's DoEmit) one input fact per substitution row, and exactly the stored facts that unify with the rule's body atom (repeated variables agree, wildcards do not constrain): an aggregate's recorded inputs are the facts of its group", 2)
+	X := hv("X")
+	c02InputCaseRule(c, rC15Do, "do-transform-pass", "q(X,5,X)", []hTerm{X, hc(5), X}, "[1 5 1 2 5 2]")
+	c02InputCaseRule(c, rC15Do, "do-transform-pass:wildcards", "q(_,5,_)", []hTerm{hv("_"), hc(5), hv("_")}, "[1 5 1 1 5 2 2 5 2]")
 }
 
 // sharedMemo calls explainer.explain for all goals on one explainer, in every rotation of the goal order.
